@@ -4,6 +4,9 @@ import IpaVerif.Model.Hybrid
 namespace IpaVerif.Driver.C01
 open IpaVerif.Util IpaVerif.Hybrid
 
+/-- aggregate_values_proof_chunk(256, 3) with the cfg(test) TARGET_PROOF_SIZE of the harness build. -/
+def aggChunk : Nat := 8
+
 def widthsOf : String → Option Widths
   | "prod" => some { bkW := 8, vW := 3, hvW := 32, buckets := 256 }
   | "small" => some { bkW := 8, vW := 3, hvW := 8, buckets := 256 }
@@ -35,11 +38,30 @@ def parseReq (toks : List String) : Option Req :=
       pure { w := w, shards := ← shards.toNat?, assign := ← parseNatList assign, recs := ← parseRecs recs }
   | _ => none
 
-/-- aggregate_values_proof_chunk(256, 3) with the cfg(test) TARGET_PROOF_SIZE of the harness build. -/
-def aggChunk : Nat := 8
+def parseRows (s : String) : Option (List Row) :=
+  if s = "-" then some [] else
+  (s.splitOn ",").mapM (fun r => match r.splitOn ":" with
+    | [a, b] => do pure ((← a.toNat?), (← b.toNat?))
+    | _ => none)
+
+def showRows (rows : List Row) : String :=
+  if rows.isEmpty then "-" else String.intercalate "," (rows.map (fun r => s!"{r.1}:{r.2}"))
+
+def prodW : Widths := { bkW := 8, vW := 3, hvW := 32, buckets := 256 }
 
 def handle (toks : List String) : Option String :=
   match toks with
+  | ["c01.agg", _mode, tags, recs] =>
+    match parseNatList tags, parseRecs recs with
+    | some ts, some rs => some (showRows (aggregateReports prodW (ts.zip rs)))
+    | _, _ => some "bad-request"
+  | ["c01.brk", _mode, hv, rows] =>
+    match hv.toNat?, parseRows rows with
+    | some hv, some rows =>
+      let w : Widths := { bkW := 8, vW := 3, hvW := hv, buckets := 256 }
+      if rows.isEmpty then some (showNatList (List.replicate 256 0))
+      else some (showNatList (finalize w [shardHistogram w aggChunk rows]))
+    | _, _ => some "bad-request"
   | "c01.e2e" :: _ =>
     match parseReq toks with
     | none => some "bad-request"
@@ -52,8 +74,26 @@ def handle (toks : List String) : Option String :=
       | some h => some (showNatList h)
   | _ => none
 
+/-- spec-side: rows of `aggregate_reports` = for every pseudonym carried by exactly two reports (in
+pseudonym order) the wrapped sums; bucket totals of `breakdown_reveal_aggregation` = saturated sums. -/
 def oracle (toks : List String) (impl : String) : Option String :=
   match toks with
+  | ["c01.agg", _mode, tags, recs] =>
+    match parseNatList tags, parseRecs recs with
+    | some ts, some rs =>
+      let tr := ts.zip rs
+      let keys := (dedupKeys ts).mergeSort (· ≤ ·)
+      let expect := keys.filterMap (fun k => match (tr.filter (·.1 == k)).map (·.2) with
+        | [r1, r2] => some ((r1.bk + r2.bk) % 256, (r1.v + r2.v) % 8)
+        | _ => none)
+      if impl = showRows expect then some "holds" else some "fails rows differ from the pairs of reports sharing a pseudonym"
+    | _, _ => some "unknown"
+  | ["c01.brk", _mode, hv, rows] =>
+    match hv.toNat?, parseRows rows with
+    | some hv, some rows =>
+      let expect := (List.range 256).map (fun b => min (((rows.filter (·.1 == b)).map (·.2)).sum) (2 ^ hv - 1))
+      if impl = showNatList expect then some "holds" else some "fails bucket totals differ from the saturated sums"
+    | _, _ => some "unknown"
   | "c01.e2e" :: _ =>
     match parseReq toks with
     | none => some "unknown"
